@@ -23,11 +23,11 @@ def plan(ctx):
     k = P.per_interp_shards(ctx)
     for v in ctx.producers:
         if ctx.tier == "quick":
-            cases = P.corpus_cases(ctx, v, n_files=10, n_w3=24, modes=2, max_file_bytes=15000, w3_size=0.6, w1_max_bytes=30000,
+            cases = P.corpus_cases(ctx, v, n_w9=0, n_files=10, n_w3=24, modes=2, max_file_bytes=15000, w3_size=0.6, w1_max_bytes=30000,
                                    w4_filter=lambda i: i.startswith(("const-", "sig-", "doc-", "dead-", "fold-tuple-5", "fold-in", "dup", "nested")))
             cases += P.w9_cases(ctx, 360)
         else:
-            cases = P.corpus_cases(ctx, v, n_files=250, n_w3=500, modes=20, max_file_bytes=60000, w1_max_bytes=150000, max_w4_bytes=40000)
+            cases = P.corpus_cases(ctx, v, n_w9=0, n_files=250, n_w3=500, modes=20, max_file_bytes=60000, w1_max_bytes=150000, max_w4_bytes=40000)
             cases += P.w9_cases(ctx, 7200)
         shards.extend(P.split(ctx, v, cases, k, "C08:", extra={"families": True}))
     return shards
